@@ -2,14 +2,17 @@
 
 Tie: exact correspondence of Mark.add_to_set / remove_from_set / is_in_set / same_set / set_from,
 NodeType.allowed_marks / allows_marks, MarkType.excludes / is_in_set / remove_from_set with
-lean/PM/Marks.lean over random mark configurations and random add/remove sequences.
+lean/PM/Marks.lean over random mark configurations and random add/remove sequences; and of the *construction* of the
+schema (`Schema(spec)`: the `excluded` / `mark_set` tables and every other compiled field, or the kind of refusal) with
+`compileSchema` of lean/PM/SchemaCompile.lean, on the generated configurations, their malformed variants and mutated ones.
 Search: set-algebra reference (documented rule) against the real code.
 """
 from prosemirror.model import Mark, Schema
 
 import json
+import random
 
-from .. import core, gen
+from .. import core, gen, schemas
 from ..codec import SchemaInfo
 from ..core import outcome
 
@@ -92,6 +95,32 @@ def run(ctx):
                 ctx.mismatch(meta[0], {"request": req, "context": meta[2]}, meta[3], out)
         del reqs[:], metas[:]
 
+    rng2 = random.Random(ctx.seed * 7919 + 14)     # the construction tie draws from its own stream
+
+    def tie_compile(spec, compiled, tag, labels=()):
+        """`Schema(spec)` against `compileSchema`: the whole compiled table (SchemaInfo.dump(), every field) or the refusal"""
+        t = schemas.compile_tie(spec, compiled)
+        if t is None:
+            ctx.count("compile:skipped-unparsable-content")
+            return
+        req, exp, kind = t
+        ctx.count("compile:" + tag + ":" + kind)
+        for lb in labels:
+            ctx.count("compile-corner:" + lb + ":" + ("ok" if kind == "ok" else "refused"))
+        if kind == "ok":
+            if any(len(set(m["excluded"])) < len(m["excluded"]) for m in exp["marks"]):
+                ctx.count("compile-corner:duplicate-in-excluded")
+            if any(n["markSet"] is not None and len(set(n["markSet"])) < len(n["markSet"]) for n in exp["nodes"]):
+                ctx.count("compile-corner:duplicate-in-mark_set")
+        reqs.append(req)
+        metas.append(("compileSchema", None, {"spec": json.loads(json.dumps(spec, default=str)), "tag": tag}, exp))
+
+    # `str.split(" ")` as the model reads it
+    for _ in range(ctx.budget(40, 200)):
+        w = "".join(rng2.choice(" ab_ ") for _ in range(rng2.randint(0, 7)))
+        reqs.append({"op": "pySplit", "s": w})
+        metas.append(("pySplit", None, w, w.split(" ")))
+
     n_schemas = ctx.budget(60, 600)
     for si in range(n_schemas):
         if len(reqs) >= 15000:
@@ -107,6 +136,7 @@ def run(ctx):
         ctx.driver.add_schema(info)
         sid = info.lean_id
         ctx.count("schemas")
+        tie_compile(schema.spec, schema, "generated")
         # the same configuration made ill-formed in one place must be refused when the schema is built: an `excludes` or a
         # node `marks` expression naming something that is neither a mark nor a group, or one name used for a node and a mark
         bad_spec = json.loads(json.dumps(schema.spec, default=str))
@@ -119,6 +149,10 @@ def run(ctx):
             bad_spec["marks"]["p"] = {}
         stb, scb = outcome(lambda: Schema(bad_spec))
         ctx.count("malformed:" + kind + ":" + ("accepted" if stb == "ok" else "rejected"))
+        tie_compile(bad_spec, None, "malformed-" + kind)
+        for _ in range(2):
+            mspec, labels = schemas.mutate_spec(rng2, schema.spec)
+            tie_compile(mspec, None, "mutated", labels)
         if stb in ("ok", "hang"):
             ctx.violation("malformed-accepted", f"Schema() accepted an ill-formed mark configuration ({kind})", {"spec": bad_spec, "malformed": kind})
         # exclusion relation
